@@ -483,6 +483,47 @@ def r5(k: Kit) -> None:
               raises, 1)
 
 
+def r6(k: Kit) -> None:
+    """Half-closed forwards stay usable; SOCKS hand-over keeps early data."""
+    from .shared import inbound_state_table
+    rep = k.rep
+    rep.rule('C20.R6', 'inbound channel messages by receive state (table, '
+             'shared with C08): after the peer\'s EOF its WINDOW_ADJUST, '
+             'requests and CLOSE are still legal, so a forward that was '
+             'half-closed keeps flowing the other way; the SOCKS forwarder '
+             'switches to forwarding without discarding what is already '
+             'buffered behind the request')
+    inbound_state_table(k, 'C20.R6')
+    # SOCKS: nothing that completes the handshake clears the input buffer
+    cls = k.idx.cls('socks.SSHSOCKSForwarder')
+    sites = 0
+    for fi in cls.methods.values():
+        for n, v in k.stores_to(fi, 'self._inpbuf'):
+            if fi.name == '__init__':
+                continue
+            sites += 1
+            keeps = v is not None and 'self._inpbuf' in names_read(v)
+            if not keeps:
+                # hand-over idiom: `data = self._inpbuf` right before
+                for blk in ast.walk(fi.node):
+                    for body in (getattr(blk, 'body', None),
+                                 getattr(blk, 'orelse', None)):
+                        if isinstance(body, list) and n.ast in body:
+                            i = body.index(n.ast)
+                            prev = body[i - 1] if i else None
+                            if isinstance(prev, ast.Assign) and \
+                                    dotted(prev.value) == 'self._inpbuf':
+                                keeps = True
+            rep.check(keeps, 'C20.R6',
+                      key(fi, 'input buffer only consumed, never cleared'),
+                      'the parser buffer is only sliced / extended',
+                      f'`{norm(n.ast)}` discards buffered input: bytes a '
+                      'client pipelined behind its SOCKS request (legal: '
+                      'the request and the first payload in one write) are '
+                      'dropped while later data still arrives', k.loc(fi, n))
+    rep.floor('C20.R6', 'SOCKS input buffer stores', sites, 2)
+
+
 def run(idx, rep, tier):
     k = Kit(idx, rep)
     rep.assumptions += NOT_DECIDED
@@ -491,3 +532,4 @@ def run(idx, rep, tier):
     r3(k)
     r4(k)
     r5(k)
+    r6(k)
